@@ -440,3 +440,21 @@ func RandomOptions(r *rand.Rand, n int, boostWords []string) database.SearchOpti
 	}
 	return o
 }
+
+// OddCaseWords: text whose case mappings change the encoded length (a buffer sized from the input is too small or too
+// large after folding): U+023A / U+023E grow from 2 to 3 bytes when lower-cased, U+212A and U+1E9E shrink, U+0130
+// lower-cases to one byte rune-wise and to three bytes string-wise, U+01C5 is a title-case digraph.
+var OddCaseWords = []string{"\u023a", "\u023e", "\u023a\u023e", "\u023e\u023e\u023e", "x\u023a", "\u023a\u023ey\u023a\u023e\u023a", "\u212a\u212a", "\u1e9e", "\u0130\u0130", "\u01c5", "\ufb03"}
+
+// WithOddCase glues or appends one of OddCaseWords to a query that keeps its ordinary words.
+func WithOddCase(r *rand.Rand, q string) string {
+	w := OddCaseWords[r.Intn(len(OddCaseWords))]
+	switch r.Intn(3) {
+	case 0:
+		return q + " " + w
+	case 1:
+		return q + w
+	default:
+		return w + " " + q + " " + w + w
+	}
+}
